@@ -662,6 +662,12 @@ impl ParserListener for Screen {
         for char in data.chars() {
             let char_width = char.width().unwrap_or(0);
 
+            // Unprintable and zero-width characters that are not combining
+            // marks do not affect the screen at all.
+            if char_width == 0 && !is_combining_mark(char) {
+                continue;
+            }
+
             // If this was the last column in a line and auto wrap mode is
             // enabled, move the cursor to the beginning of the next line,
             // otherwise replace characters already displayed with newly
@@ -717,8 +723,6 @@ impl ParserListener for Screen {
                         last.data = last.data.nfc().collect::<String>() + &char.to_string();
                     }
                 }
-            } else {
-                break; // Unprintable character or doesn't advance the cursor.
             }
 
             // .. note:: We can't use `cursor_forward()`, because that
